@@ -1205,11 +1205,12 @@ class MultiReader(IndexReader):
         crs = []
         doc_offsets = []
         for i, r in enumerate(self.readers):
-            if r.has_column(fieldname):
-                cr = r.column_reader(fieldname, column=column, reverse=reverse,
-                                     translate=translate)
-                crs.append(cr)
-                doc_offsets.append(self.doc_offsets[i])
+            # A segment without a file for this column still takes part: its
+            # reader answers the default value for each of its documents
+            cr = r.column_reader(fieldname, column=column, reverse=reverse,
+                                 translate=translate)
+            crs.append(cr)
+            doc_offsets.append(self.doc_offsets[i])
         return columns.MultiColumnReader(crs, doc_offsets)
 
     # Per doc methods
